@@ -14,8 +14,24 @@ Local Open Scope Z_scope.
 Definition ref_value (st : state) (rv : rvalue) (v : pv) : Prop :=
   match rv with
   | RNodeId i => exists vps n, get_at st vps = Some n /\ nid n = Some i /\ erase n = v
-  | _ => plain_rv rv /\ prv rv = v
+  | _ => storable_rv rv /\ prv rv = v
   end.
+Lemma ref_value_ok : forall st rv v, ref_value st rv v -> rv_ok rv.
+Proof. destruct rv; simpl; auto; intros v [S _]. apply (storable_rv_ok (RLit l)); auto. contradiction. Qed.
+Lemma ref_value_not_missing : forall st rv v, ref_value st rv v -> is_missing_rv rv = false.
+Proof. destruct rv; simpl; auto. intros v [S _]. destruct l; auto; congruence. Qed.
+Lemma ref_value_no_ins : forall st rv v, ref_value st rv v -> match rv with RIns v' => (true, v') | _ => (false, rv) end = (false, rv).
+Proof. destruct rv; simpl; auto. intros v [S _]. contradiction. Qed.
+
+(* the result of a write whose argument may be an existing value: as [wrote], without the claim about the other roots *)
+Definition wrote_w (ps : pos) (tid : N) (pa : option N) (fl : flags) (st' : state) (l' : list pv) : Prop :=
+  exists its', at_is st' ps tid KList pa fl its' /\ clean its' /\ evals its' = l' /\ anc_clean st' ps /\ WFI st'.
+Definition dwrote_w (ps : pos) (tid : N) (pa : option N) (fl : flags) (st' : state) (d' : list (key * pv)) : Prop :=
+  exists its', at_is st' ps tid KDict pa fl its' /\ clean its' /\ eitems its' = d' /\ anc_clean st' ps /\ WFI st'.
+(* `old is value` is decided on object identity; the erasure keeps the tag of an opaque object, not its identity: where the
+   replaced item and the argument are the same opaque object they have to carry the same tag *)
+Definition tag_agree (old : node) (rv : rvalue) : Prop :=
+  forall o t t', old = Leaf (LOpq o t) -> rv = RLeaf (LOpq o t') -> t = t'.
 
 Lemma formalize_ref : forall q sc st cp ck cid pa pt cfl its k ins rv nw st1 v,
   no_quirks q -> WFI st -> get_at st cp = Some (Node cid ck pa pt cfl its) -> ref_value st rv v ->
@@ -24,12 +40,11 @@ Lemma formalize_ref : forall q sc st cp ck cid pa pt cfl its k ins rv nw st1 v,
   erase nw = v /\ is_missing nw = false /\ get_root st1 (fst cp) = get_root st (fst cp).
 Proof.
   intros q sc st cp ck cid pa pt cfl its k ins rv nw st1 v NQ W G RV NC F.
-  assert (OK : rv_ok rv).
-  { destruct rv; simpl in *; auto. destruct RV. apply (plain_rv_ok (RLit l)); auto. destruct RV; contradiction. }
+  assert (OK : rv_ok rv) by (eapply ref_value_ok; eauto).
   destruct (formalize_ids q sc st cp ck cid pa pt cfl its k ins rv nw st1 (proj1 W) (proj2 W) OK G NC F) as (_ & GR & _).
   destruct rv as [l|l|i|v0]; simpl in RV.
-  - destruct RV as [PV EV]. destruct (formalize_storable _ _ _ _ _ _ _ _ _ _ _ _ (plain_storable (RLeaf l) PV) F) as (A & B & _). subst v. auto.
-  - destruct RV as [PV EV]. destruct (formalize_storable _ _ _ _ _ _ _ _ _ _ _ _ (plain_storable (RLit l) PV) F) as (A & B & _). subst v. auto.
+  - destruct RV as [PV EV]. destruct (formalize_storable _ _ _ _ _ _ _ _ _ _ _ _ (PV : storable_rv (RLeaf l)) F) as (A & B & _). subst v. auto.
+  - destruct RV as [PV EV]. destruct (formalize_storable _ _ _ _ _ _ _ _ _ _ _ _ (PV : storable_rv (RLit l)) F) as (A & B & _). subst v. auto.
   - destruct RV as (vps & n & GV & NI & EV). destruct n as [lf|i0 vk vpa vpt vfl vits]; simpl in NI; inv NI.
     unfold formalize in F. rewrite (locate_complete' _ _ _ _ _ _ _ _ W GV) in F. rewrite GV in F.
     destruct (needs_clone (fst cp) ck cid (pt ++ [k]) ins vps (Node i vk vpa vpt vfl vits)).
@@ -47,6 +62,54 @@ Proof.
   - destruct RV; contradiction.
 Qed.
 
+Section RefWritten.
+Variables (st : state) (ps : pos) (tid : N) (k0 : kind) (pa : option N) (fl : flags) (its : list (key * node)).
+Hypothesis AT : at_is st ps tid k0 pa fl its.
+Hypothesis ANC : anc_clean st ps.
+Hypothesis W : WFI st.
+
+Lemma written_weak : forall st1 its',
+  get_root st1 (fst ps) = get_root st (fst ps) ->
+  (forall old, at_is (add_detached (update_at st1 ps (set_items its')) old) ps tid k0 pa fl its' /\
+               anc_clean (add_detached (update_at st1 ps (set_items its')) old) ps) /\
+  at_is (update_at st1 ps (set_items its')) ps tid k0 pa fl its' /\ anc_clean (update_at st1 ps (set_items its')) ps.
+Proof.
+  intros st1 its' GR.
+  assert (G1 : get_at st1 ps = Some (Node tid k0 pa (snd ps) fl its)) by (unfold get_at; rewrite GR; exact AT).
+  assert (A1 : anc_clean st1 ps) by (eapply anc_clean_same_root; eauto).
+  assert (B : at_is (update_at st1 ps (set_items its')) ps tid k0 pa fl its' /\ anc_clean (update_at st1 ps (set_items its')) ps).
+  { split. unfold at_is. rewrite (get_at_update_at_same _ _ _ _ G1). reflexivity. apply anc_clean_update_items; auto. }
+  split; auto. intros old. destruct B as [B1 B2]. split.
+  - unfold at_is. eapply keeps_roots_get_at. apply keeps_roots_add_detached. exact B1.
+  - eapply anc_clean_keeps. apply keeps_roots_add_detached. eapply get_at_root_some; eauto. auto.
+Qed.
+
+(* `old is value` answered yes: the item denotes what the argument denotes (a node sits in one place only) *)
+Lemma same_obj_ref : forall k old rv v,
+  assoc k its = Some old -> ref_value st rv v -> tag_agree old rv -> same_obj old rv = true -> erase old = v.
+Proof.
+  intros k old rv v AS RV TA S.
+  destruct old as [l|i ok opa opt ofl oits], rv as [l0|l0|j|v0]; simpl in S; try discriminate.
+  - destruct RV as [NM EV]. simpl in NM, EV. subst v. simpl. f_equal.
+    destruct l, l0; simpl in S; try discriminate; auto.
+    + apply Bool.eqb_prop in S; subst; auto.
+    + apply Z.eqb_eq in S; subst; auto.
+    + replace s0 with s; auto. apply (list_eqb_eq _ N.eqb); auto. intros; apply N.eqb_eq; auto.
+    + apply N.eqb_eq in S. subst. simpl. rewrite (TA _ _ _ eq_refl eq_refl). reflexivity.
+  - apply N.eqb_eq in S. subst j. destruct RV as (vps & n0 & GV & NI & EV).
+    destruct n0 as [lf|i0 vk vpa vpt vfl vits]; simpl in NI; inv NI.
+    pose proof (get_at_child_of st (fst ps) (snd ps) _ k (AT : get_at st (fst ps, snd ps) = _)) as GC.
+    simpl in GC. rewrite AS in GC. destruct vps as [vr vp].
+    destruct (no_node_twice _ _ _ _ _ _ _ _ _ _ _ _ _ _ _ _ W GV GC) as [E1 E2]. subst.
+    rewrite GV in GC. inv GC. reflexivity.
+Qed.
+Lemma not_same_not_current : forall k rv,
+  same_obj (match assoc k its with Some o => o | None => Leaf LMissing end) rv = false -> not_current its k rv.
+Proof.
+  intros k rv S i E. subst rv. destruct (assoc k its) as [[l|j ? ? ? ? ?]|]; auto. simpl in S. apply N.eqb_neq in S. exact S.
+Qed.
+End RefWritten.
+
 Section RefPrim.
 Variables (q : quirks) (sc : scope) (st : state) (ps : pos) (tid : N) (pa : option N) (fl : flags) (its : list (key * node)).
 Hypothesis NQ : no_quirks q.
@@ -56,37 +119,14 @@ Hypothesis ANC : anc_clean st ps.
 Hypothesis W : WFI st.
 Let n := zlen its.
 
-(* the result of a write whose argument may be an existing value: as [wrote], without the claim about the other roots *)
-Definition wrote_w (st' : state) (l' : list pv) : Prop :=
-  exists its', at_is st' ps tid KList pa fl its' /\ clean its' /\ evals its' = l' /\ anc_clean st' ps /\ WFI st'.
-
-Lemma written_weak : forall st1 its',
-  get_root st1 (fst ps) = get_root st (fst ps) ->
-  (forall old, at_is (add_detached (update_at st1 ps (set_items its')) old) ps tid KList pa fl its' /\
-               anc_clean (add_detached (update_at st1 ps (set_items its')) old) ps) /\
-  at_is (update_at st1 ps (set_items its')) ps tid KList pa fl its' /\ anc_clean (update_at st1 ps (set_items its')) ps.
-Proof.
-  intros st1 its' GR.
-  assert (G1 : get_at st1 ps = Some (Node tid KList pa (snd ps) fl its)) by (unfold get_at; rewrite GR; exact AT).
-  assert (A1 : anc_clean st1 ps) by (eapply anc_clean_same_root; eauto).
-  assert (B : at_is (update_at st1 ps (set_items its')) ps tid KList pa fl its' /\ anc_clean (update_at st1 ps (set_items its')) ps).
-  { split. unfold at_is. rewrite (get_at_update_at_same _ _ _ _ G1). reflexivity. apply anc_clean_update_items; auto. }
-  split; auto. intros old. destruct B as [B1 B2]. split.
-  - unfold at_is. eapply keeps_roots_get_at. apply keeps_roots_add_detached. exact B1.
-  - eapply anc_clean_keeps. apply keeps_roots_add_detached. eapply get_at_root_some; eauto. auto.
-Qed.
-
 (* l.append(x) with any argument: a literal, a symbolic value that has a parent (copied) or a root (adopted) *)
 Lemma lprim_append_ref : forall z rv v st' p,
-  ref_value st rv v -> is_missing_rv rv = false -> n <= z ->
+  ref_value st rv v -> n <= z ->
   lprim q sc st ps (KI z) rv = (st', p) ->
-  p = PUpd /\ wrote_w st' (evals its ++ [v]).
+  p = PUpd /\ wrote_w ps tid pa fl st' (evals its ++ [v]).
 Proof.
-  intros z rv v st' p RV NM RG E.
-  assert (OK : rv_ok rv).
-  { destruct rv; simpl in *; auto. destruct RV. apply (plain_rv_ok (RLit l)); auto. destruct RV; contradiction. }
-  assert (NI : match rv with RIns v' => (true, v') | _ => (false, rv) end = (false, rv)).
-  { destruct rv; auto. simpl in RV. destruct RV; contradiction. }
+  intros z rv v st' p RV RG E.
+  pose proof (ref_value_ok _ _ _ RV) as OK. pose proof (ref_value_not_missing _ _ _ RV) as NM. pose proof (ref_value_no_ins _ _ _ RV) as NI.
   pose proof (lprim_WFI _ _ _ _ _ _ _ _ W OK E) as W'.
   destruct (at_children ps tid pa fl st its (proj1 W) AT) as (CF & KP).
   unfold lprim in E. pose proof AT as AT'. unfold at_is in AT'. rewrite AT' in E. fold n in E.
@@ -99,12 +139,207 @@ Proof.
     destruct (assoc_positions _ _ _ _ KP AS) as (j & EJ & BJ). inv EJ. unfold n in BJ. lia. }
   destruct (formalize_ref q sc st ps KList tid pa (snd ps) fl its (KI n) false rv nw st1 v NQ W AT' RV NC F) as (EN & MN & GR).
   inv E. split; auto.
-  destruct (written_weak st1 (its ++ [(KI n, nw)]) GR) as (_ & A1 & AC1).
+  destruct (written_weak st ps tid KList pa fl its AT ANC st1 (its ++ [(KI n, nw)]) GR) as (_ & A1 & AC1).
   exists (its ++ [(KI n, nw)]). repeat split; auto; try apply W'.
   - apply clean_app; auto. constructor; auto.
   - rewrite evals_app. simpl. try rewrite EN. reflexivity.
 Qed.
+
+(* l[z] = x with any argument *)
+Lemma lprim_replace_ref : forall z rv v st' p,
+  ref_value st rv v -> (forall k old, In (k, old) its -> tag_agree old rv) -> - n <= z < n ->
+  lprim q sc st ps (KI z) rv = (st', p) ->
+  (p = PNone \/ p = PUpd) /\
+  wrote_w ps tid pa fl st' (PyList.replace_nth (Z.to_nat (if z <? 0 then z + n else z)) v (evals its)).
+Proof.
+  intros z rv v st' p RV TA RG E.
+  pose proof (ref_value_ok _ _ _ RV) as OK. pose proof (ref_value_no_ins _ _ _ RV) as NI.
+  pose proof (lprim_WFI _ _ _ _ _ _ _ _ W OK E) as W'.
+  destruct (at_children ps tid pa fl st its (proj1 W) AT) as (CF & KP).
+  unfold lprim in E. pose proof AT as AT'. unfold at_is in AT'. rewrite AT' in E. fold n in E.
+  replace (z >=? n) with false in E by lia. cbn [andb fst snd] in E. rewrite NI in E.
+  set (idx := if z <? 0 then (if z >=? - n then z + n else z) else z) in *.
+  assert (I : idx = (if z <? 0 then z + n else z)) by (unfold idx; destruct (z <? 0) eqn:?; auto; replace (z >=? - n) with true by lia; auto).
+  assert (B : 0 <= idx < n) by (rewrite I; destruct (z <? 0) eqn:?; lia).
+  replace (idx <? n) with true in E by lia. replace (idx <? 0) with false in E by lia. cbn [andb negb] in E.
+  destruct (nth_error its (Z.to_nat idx)) as [[kk old]|] eqn:N.
+  2:{ apply nth_error_None in N. unfold n, zlen in B. lia. }
+  rewrite <- I.
+  pose proof (positions_assoc _ _ _ _ _ KP N) as AS. rewrite Z.add_0_l, Z2Nat.id in AS by lia.
+  destruct (same_obj old rv) eqn:S.
+  - injection E as E1 E2; subst st' p. split; auto. exists its. repeat split; auto; try apply W.
+    symmetry. apply replace_nth_same. rewrite nth_error_evals, N. simpl. f_equal.
+    eapply (same_obj_ref st ps tid KList pa fl its AT W); eauto. eapply TA. eapply nth_error_In; eauto.
+  - destruct (formalize q sc st (fst ps) KList tid fl (snd ps ++ [KI idx]) false rv) as [nw st1] eqn:F.
+    assert (NC : false = false -> not_current its (KI idx) rv).
+    { intros _. apply not_same_not_current. rewrite AS. exact S. }
+    destruct (formalize_ref q sc st ps KList tid pa (snd ps) fl its (KI idx) false rv nw st1 v NQ W AT' RV NC F) as (EN & MN & GR).
+    inv E. split; auto.
+    destruct (written_weak st ps tid KList pa fl its AT ANC st1 (set_nth (Z.to_nat idx) (KI idx, nw) its) GR) as (A1 & _).
+    destruct (A1 old) as [A2 A3].
+    exists (set_nth (Z.to_nat idx) (KI idx, nw) its). repeat split; auto; try apply W'.
+    + apply Forall_set_nth_clean; auto.
+    + rewrite evals_set_nth. reflexivity.
+Qed.
+
+(* l.insert(z, x) with any argument *)
+Lemma lprim_insert_ref : forall z rv v st' p,
+  ref_value st rv v -> lprim q sc st ps (KI z) (RIns rv) = (st', p) ->
+  p = PUpd /\ wrote_w ps tid pa fl st' (PyList.insert (evals its) z v).
+Proof.
+  intros z rv v st' p RV E.
+  pose proof (ref_value_ok _ _ _ RV) as OK.
+  pose proof (lprim_WFI _ _ _ _ _ _ _ _ W (OK : rv_ok (RIns rv)) E) as W'.
+  unfold lprim in E. pose proof AT as AT'. unfold at_is in AT'. rewrite AT' in E. fold n in E.
+  replace (is_missing_rv (RIns rv)) with false in E by reflexivity. rewrite andb_false_r in E. cbn [fst snd] in E.
+  assert (NN : 0 <= n) by (unfold n, zlen; lia).
+  set (idx0 := if z >=? n then n else z) in *.
+  set (idx := if idx0 <? 0 then (if idx0 >=? - n then idx0 + n else 0) else idx0) in *.
+  assert (P : Z.to_nat idx = PyList.insert_pos (PyList.len (evals its)) z /\ 0 <= idx <= n).
+  { rewrite len_evals. fold n. unfold PyList.insert_pos, idx, idx0.
+    destruct (z >=? n) eqn:Hzn; repeat match goal with |- context [if ?b then _ else _] => destruct b eqn:? end; lia. }
+  destruct P as [P B].
+  rewrite andb_false_r in E.
+  destruct (formalize q sc st (fst ps) KList tid fl (snd ps ++ [KI idx]) true rv) as [nw st1] eqn:F.
+  assert (NC : true = false -> not_current its (KI idx) rv) by discriminate.
+  destruct (formalize_ref q sc st ps KList tid pa (snd ps) fl its (KI idx) true rv nw st1 v NQ W AT' RV NC F) as (EN & MN & GR).
+  unfold PyList.insert. rewrite <- P, <- EN.
+  destruct (idx <? n) eqn:L; inv E; split; auto.
+  - destruct (written_weak st ps tid KList pa fl its AT ANC st1 (renum (snd ps) (insert_at (Z.to_nat idx) (KI idx, nw) its)) GR) as (_ & A1 & AC1).
+    exists (renum (snd ps) (insert_at (Z.to_nat idx) (KI idx, nw) its)). repeat split; auto; try apply W'.
+    + apply clean_renum. apply Forall_insert_at; auto.
+    + rewrite evals_renum, evals_insert_at; auto. unfold n, zlen in *. lia.
+  - assert (idx = n) by lia. rewrite H in W'. rewrite H.
+    destruct (written_weak st ps tid KList pa fl its AT ANC st1 (its ++ [(KI n, nw)]) GR) as (_ & A1 & AC1).
+    exists (its ++ [(KI n, nw)]). repeat split; auto; try apply W'.
+    + apply clean_app; auto. constructor; auto.
+    + rewrite evals_app. unfold n, zlen. rewrite Nat2Z.id. rewrite <- (evals_length its).
+      rewrite firstn_all, skipn_all. reflexivity.
+Qed.
 End RefPrim.
+
+Lemma dprim_WFI : forall q sc st cp k rv st' p, WFI st -> rv_ok rv -> dprim q sc st cp k rv = (st', p) -> WFI st'.
+Proof. intros. eapply WFI_step; eauto. destruct H; eapply dprim_wfs; eauto. eapply dprim_ids; eauto. Qed.
+
+Section RefDPrim.
+Variables (q : quirks) (sc : scope) (st : state) (ps : pos) (tid : N) (pa : option N) (fl : flags) (its : list (key * node)).
+Hypothesis NQ : no_quirks q.
+Hypothesis AT : at_is st ps tid KDict pa fl its.
+Hypothesis CLEAN : clean its.
+Hypothesis ANC : anc_clean st ps.
+Hypothesis W : WFI st.
+
+(* d[k] = x with any argument *)
+Lemma dprim_set_ref : forall k rv v st' p,
+  ref_value st rv v -> (forall old, assoc k its = Some old -> tag_agree old rv) ->
+  dprim q sc st ps k rv = (st', p) ->
+  (p = PNone \/ p = PUpd) /\ dwrote_w ps tid pa fl st' (PyDict.dset key_eqb k v (eitems its)).
+Proof.
+  intros k rv v st' p RV TA E.
+  pose proof (ref_value_ok _ _ _ RV) as OK. pose proof (ref_value_not_missing _ _ _ RV) as NM.
+  pose proof (dprim_WFI _ _ _ _ _ _ _ _ W OK E) as W'.
+  unfold dprim in E. pose proof AT as AT'. unfold at_is in AT'. rewrite AT' in E. cbn [fst snd] in E.
+  destruct (same_obj (match assoc k its with Some o => o | None => Leaf LMissing end) rv) eqn:S.
+  - injection E as E1 E2; subst st' p. split; auto. exists its. repeat split; auto; try apply W.
+    symmetry. apply dset_same. rewrite dget_eitems.
+    destruct (assoc k its) as [o|] eqn:A; simpl.
+    + f_equal. eapply (same_obj_ref st ps tid KDict pa fl its AT W); eauto.
+    + exfalso. destruct rv; simpl in *; try discriminate. destruct l; simpl in *; discriminate.
+  - rewrite NM in E.
+    destruct (formalize q sc st (fst ps) KDict tid fl (snd ps ++ [k]) false rv) as [nw st1] eqn:F.
+    assert (NC : false = false -> not_current its k rv) by (intros _; apply not_same_not_current; exact S).
+    destruct (formalize_ref q sc st ps KDict tid pa (snd ps) fl its k false rv nw st1 v NQ W AT' RV NC F) as (EN & MN & GR).
+    inv E. split; auto.
+    destruct (written_weak st ps tid KDict pa fl its AT ANC st1 (set_assoc k nw its) GR) as (A1 & _).
+    destruct (A1 (match assoc k its with Some o => o | None => Leaf LMissing end)) as [A2 A3].
+    exists (set_assoc k nw its). repeat split; auto; try apply W'.
+    + apply clean_set_assoc; auto.
+    + rewrite eitems_set_assoc. reflexivity.
+Qed.
+End RefDPrim.
+
+Lemma notified_id_w : forall sc st ps tid k pa fl its p,
+  at_is st ps tid k pa fl its -> clean its -> anc_clean st ps -> WFI st -> notified sc st ps p = st.
+Proof.
+  intros sc st ps tid k pa fl its p R1 C1 A1 W1. unfold notified. destruct p; auto. destruct (notify_on sc); auto.
+  rewrite fix_chain_id; [auto|apply W1|].
+  intros pre suf i pa0 pt fl0 its0 ES G. destruct suf.
+  - rewrite app_nil_r in ES. subst pre. unfold at_is in R1. rewrite <- surjective_pairing in G. rewrite R1 in G. inv G. auto.
+  - eapply A1; eauto. discriminate.
+Qed.
+
+Lemma after_prim_w : forall sc ps tid pa fl st1 p l' out st',
+  (p = PNone \/ p = PUpd) -> wrote_w ps tid pa fl st1 l' ->
+  match p with PErr e => (st1, Err e) | _ => (notified sc st1 ps p, Ok RNone) end = (st', out) ->
+  wrote_w ps tid pa fl st' l' /\ out = Ok RNone.
+Proof.
+  intros sc ps tid pa fl st1 p l' out st' PP (its1 & R1 & C1 & E1 & A1 & W1) E.
+  rewrite (notified_id_w sc st1 ps tid KList pa fl its1 p R1 C1 A1 W1) in E.
+  destruct PP; subst p; inv E; split; auto; exists its1; auto 10.
+Qed.
+Lemma after_dprim_w : forall sc ps tid pa fl st1 p d' out st',
+  (p = PNone \/ p = PUpd) -> dwrote_w ps tid pa fl st1 d' ->
+  match p with PErr e => (st1, Err e) | _ => (notified sc st1 ps p, Ok RNone) end = (st', out) ->
+  dwrote_w ps tid pa fl st' d' /\ out = Ok RNone.
+Proof.
+  intros sc ps tid pa fl st1 p d' out st' PP (its1 & R1 & C1 & E1 & A1 & W1) E.
+  rewrite (notified_id_w sc st1 ps tid KDict pa fl its1 p R1 C1 A1 W1) in E.
+  destruct PP; subst p; inv E; split; auto; exists its1; auto 10.
+Qed.
+
+(* l.append(x), l[i] = x, l.insert(i, x) where x is any existing or literal value (also an opaque object): the step is
+   list's with what x denoted before the call *)
+Definition ref_lop (o : op rvalue) (v : pv) : option (PyList.lop pv) :=
+  match o with
+  | LAppend _ => Some (PyList.PLAppend v)
+  | LSet i _ => Some (PyList.PLSet i v)
+  | LInsert i _ => Some (PyList.PLInsert i v)
+  | _ => None
+  end.
+Definition ref_arg (o : op rvalue) : option rvalue :=
+  match o with LAppend rv | LSet _ rv | LInsert _ rv | DSet _ _ rv => Some rv | _ => None end.
+
+Theorem exec_list_ref_refines : forall q sc ps tid pa fl st its o rv v lo st' out,
+  no_quirks q -> WFI st -> at_is st ps tid KList pa fl its -> clean its -> anc_clean st ps -> permits sc fl ->
+  ref_arg o = Some rv -> ref_value st rv v -> (forall k old, In (k, old) its -> tag_agree old rv) -> ref_lop o v = Some lo ->
+  exec q sc st ps tid KList (snd ps) fl its o = (st', out) ->
+  match py_lstep (evals its) lo with
+  | inr e => st' = st /\ out = Err (err_of e)
+  | inl (l', ret) => wrote_w ps tid pa fl st' l' /\ ret_agrees st' out ret
+  end.
+Proof.
+  intros q sc ps tid pa fl st its o rv v lo st' out NQ W R C A [SL AW] RA RV TA LO E.
+  unfold py_lstep, PyList.lstep. rewrite len_evals.
+  destruct o; simpl in LO; inv LO; simpl in RA; inv RA; unfold exec in E; rewrite ?SL, ?AW in E; cbn [negb andb] in E.
+  - (* l[i] = x *)
+    unfold PyList.norm_index. destruct ((i <? - zlen its) || (i >=? zlen its)) eqn:B.
+    + inv E; auto.
+    + destruct (lprim q sc st ps (KI i) rv) as [st1 p] eqn:L.
+      destruct (lprim_replace_ref q sc st ps tid pa fl its NQ R C A W i rv v st1 p RV TA ltac:(lia) L) as [PP WR].
+      destruct (after_prim_w _ _ _ _ _ _ _ _ _ _ PP WR E); subst; split; [auto|reflexivity].
+  - (* append *)
+    destruct (lprim q sc st ps (KI (zlen its)) rv) as [st1 p] eqn:L.
+    destruct (lprim_append_ref q sc st ps tid pa fl its NQ R C A W _ rv v st1 p RV (Z.le_refl _) L) as [PP WR].
+    destruct (after_prim_w _ _ _ _ _ _ _ _ _ _ (or_intror PP) WR E); subst; split; [auto|reflexivity].
+  - (* insert *)
+    destruct (lprim q sc st ps (KI i) (RIns rv)) as [st1 p] eqn:L.
+    destruct (lprim_insert_ref q sc st ps tid pa fl its NQ R C A W i rv v st1 p RV L) as [PP WR].
+    destruct (after_prim_w _ _ _ _ _ _ _ _ _ _ (or_intror PP) WR E); subst; split; [auto|reflexivity].
+Qed.
+
+(* d[k] = x / d.k = x with any argument *)
+Theorem exec_dict_ref_refines : forall q sc ps tid pa fl st its a k rv v st' out,
+  no_quirks q -> WFI st -> at_is st ps tid KDict pa fl its -> clean its -> anc_clean st ps -> permits sc fl ->
+  ref_value st rv v -> (forall old, assoc k its = Some old -> tag_agree old rv) ->
+  exec q sc st ps tid KDict (snd ps) fl its (DSet a k rv) = (st', out) ->
+  out = Ok RNone /\ dwrote_w ps tid pa fl st' (PyDict.dset key_eqb k v (eitems its)).
+Proof.
+  intros q sc ps tid pa fl st its a k rv v st' out NQ W R C A [SL AW] RV TA E.
+  unfold exec in E; rewrite ?SL, ?AW in E; cbn [negb andb] in E.
+  destruct (dprim q sc st ps k rv) as [st1 p] eqn:L.
+  destruct (dprim_set_ref q sc st ps tid pa fl its NQ R C A W k rv v st1 p RV TA L) as [PP WR].
+  destruct (after_dprim_w _ _ _ _ _ _ _ _ _ _ PP WR E); subst; split; auto.
+Qed.
 
 (* l.append(x) where x is any existing or literal value: the list ends with what x denoted before the call *)
 Theorem exec_append_ref_refines : forall q sc ps tid pa fl st its rv v st' out,
@@ -115,11 +350,6 @@ Theorem exec_append_ref_refines : forall q sc ps tid pa fl st its rv v st' out,
 Proof.
   intros q sc ps tid pa fl st its rv v st' out NQ W R C A SL RV NM E. unfold exec in E. rewrite SL in E.
   destruct (lprim q sc st ps (KI (zlen its)) rv) as [st1 p] eqn:L.
-  destruct (lprim_append_ref q sc st ps tid pa fl its NQ R C A W (zlen its) rv v st1 p RV NM (Z.le_refl _) L) as (EP & its1 & R1 & C1 & E1 & A1 & W1).
-  subst p. inv E. split; auto. unfold notified. destruct (notify_on sc).
-  - rewrite fix_chain_id; [exists its1; auto 10|apply W1|].
-    intros pre suf i pa0 pt fl0 its0 ES G. destruct suf.
-    + rewrite app_nil_r in ES. subst pre. unfold at_is in R1. rewrite <- surjective_pairing in G. rewrite R1 in G. inv G. auto.
-    + eapply A1; eauto. discriminate.
-  - exists its1; auto 10.
+  destruct (lprim_append_ref q sc st ps tid pa fl its NQ R C A W _ rv v st1 p RV (Z.le_refl _) L) as [PP WR].
+  destruct (after_prim_w _ _ _ _ _ _ _ _ _ _ (or_intror PP) WR E); subst; split; auto.
 Qed.
